@@ -270,7 +270,7 @@ func layoutCheckBufIn(p *core.Prog, fn *ssa.Function, buf *ssa.MakeSlice, via ss
 						if !isDst {
 							continue
 						}
-						src := x.Call.Args[1]
+						src := env.subst(x.Call.Args[1]) // a constant handed in by the caller counts with its length
 						var l linExpr
 						if s, ok := core.ConstString(src); ok {
 							l = linConst(int64(len(s)))
